@@ -16,6 +16,12 @@ Variant(i) ==
       [] i = 3 -> [section |-> TRUE,  dir |-> "tr", unknown |-> FALSE, pre |-> "plain", post |-> "deps"]
       [] i = 4 -> [section |-> TRUE,  dir |-> None, unknown |-> TRUE,  pre |-> "decoy", post |-> "none"]
       [] i = 5 -> [section |-> FALSE, dir |-> None, unknown |-> FALSE, pre |-> "decoy", post |-> "none"]
+      \* locales-dir spellings: a hidden directory, a nested one, one above the crate (the crate then lives in a sub-directory
+      \* of the case), a leading "./"
+      [] i = 6 -> [section |-> TRUE,  dir |-> ".i18n", unknown |-> FALSE, pre |-> "plain", post |-> "none"]
+      [] i = 7 -> [section |-> TRUE,  dir |-> "a/b", unknown |-> FALSE, pre |-> "plain", post |-> "deps"]
+      [] i = 8 -> [section |-> TRUE,  dir |-> "../up", unknown |-> FALSE, pre |-> "plain", post |-> "none"]
+      [] i = 9 -> [section |-> TRUE,  dir |-> "./tr", unknown |-> FALSE, pre |-> "decoy", post |-> "none"]
 
 MCRawConfigs ==
     { [section |-> Variant(v).section, default |-> d, locales |-> ls, namespaces |-> ns, inherits |-> inh,
@@ -45,6 +51,7 @@ CaseOf(rc, drop) ==
      abs |-> [raw |-> rc, drop |-> drop],
      cfg |-> [raw |-> TRUE, section |-> rc.section, fields |-> Fields(rc), pre |-> rc.pre, post |-> rc.post],
      dir |-> IF rc.dir = None THEN "locales" ELSE rc.dir,
+     root |-> IF rc.dir = "../up" THEN "crate" ELSE "",
      files |-> [i \in DOMAIN kept |-> <<kept[i], KeyNode("k")>>] \o [i \in DOMAIN decoys |-> <<decoys[i], Garbage>>]]
 
 EmitCases ==
